@@ -108,7 +108,11 @@ package abci
 //@   requires mux != nil && mux.state != nil
 //@   loop 1 invariant len(lastCommit.Votes) == idx() && lastCommit.Round == req.LocalLastCommit.Round
 //@   loop 1 invariant forall j int :: 0 <= j && j < idx() ==> lastCommit.Votes[j].SignedLastBlock == req.LocalLastCommit.Votes[j].SignedLastBlock
+//@   loop 1 invariant forall j int :: 0 <= j && j < idx() ==> lastCommit.Votes[j].Validator.Power == req.LocalLastCommit.Votes[j].Validator.Power
+//@   loop 1 invariant forall j int :: 0 <= j && j < idx() ==> bytesId(lastCommit.Votes[j].Validator.Address) == bytesId(req.LocalLastCommit.Votes[j].Validator.Address)
 //@   precall abciMux\)\.executeProposal$ :: lastCommit.Round == req.LocalLastCommit.Round && len(lastCommit.Votes) == len(req.LocalLastCommit.Votes)
 //@   precall abciMux\)\.executeProposal$ :: forall j int :: 0 <= j && j < len(lastCommit.Votes) ==> lastCommit.Votes[j].SignedLastBlock == req.LocalLastCommit.Votes[j].SignedLastBlock
+//@   precall abciMux\)\.executeProposal$ :: forall j int :: 0 <= j && j < len(lastCommit.Votes) ==> lastCommit.Votes[j].Validator.Power == req.LocalLastCommit.Votes[j].Validator.Power
+//@   precall abciMux\)\.executeProposal$ :: forall j int :: 0 <= j && j < len(lastCommit.Votes) ==> bytesId(lastCommit.Votes[j].Validator.Address) == bytesId(req.LocalLastCommit.Votes[j].Validator.Address)
 //@   precall abciMux\)\.executeProposal$ :: header.Height == req.Height && header.Time == req.Time && bytesId(header.ProposerAddress) == bytesId(req.ProposerAddress) && bytesId(header.NextValidatorsHash) == bytesId(req.NextValidatorsHash)
 //@   note the commit info handed to the proposal execution has one entry per vote of the local last commit (same validator, same signed flag, same order) and the header carries the request's height, time, proposer and next-validators hash: what the proposer executes is what validators and replaying nodes execute for the same block
